@@ -44,6 +44,9 @@ Failed(o) == res[o].result \in {"ioError", "noProgress"}
 After(a, b) == a \in DOMAIN ended /\ b \in DOMAIN began /\ ended[a] < began[b]
 CleanBefore(b) == \A a \in DOMAIN res : After(a, b) => res[a].result \in {"response", "kafkaError"}
 
+\* operations that leave part of a fetch response unread on purpose (short buffer, early Close): the Conn stays usable
+PartialReads == {"fetchShort", "fetchPartial", "fetchClose2"}
+
 \* C06: a successful call returns the answer to its own (payload-tagged) request
 C06_OwnResponse == \A o \in DOMAIN res : res[o].result = "response" => res[o].own
 
@@ -54,7 +57,7 @@ C06_UniqueIds == ~dupid
 C11_NextAsFresh ==
   kind = "c11" =>
     \A b \in DOMAIN res :
-       (CleanBefore(b) /\ \E a \in DOMAIN res : After(a, b) /\ res[a].result = "kafkaError")
+       (CleanBefore(b) /\ \E a \in DOMAIN res : After(a, b) /\ (res[a].result = "kafkaError" \/ plan[PlanOf(a)].kind \in PartialReads))
           => res[b].result = res[b].fresh /\ res[b].own = res[b].freshOwn
 C11_KafkaErrKeepsOpen ==
   kind = "c11" => \A a \in DOMAIN res : (res[a].result = "kafkaError" /\ CleanBefore(a)) => ~res[a].closed
@@ -73,7 +76,10 @@ C11_StallIsError ==
   \A a \in DOMAIN res : (FaultOf(a).stall > 0 /\ CleanBefore(a)) => res[a].result = "ioError"
 \* a framing error is never produced by the library's own reading
 C11_NoSpuriousNoProgress ==
-  kind \in {"c11", "c06"} => \A o \in DOMAIN res : (FaultOf(o).cut < 0 /\ CleanBefore(o)) => res[o].result # "noProgress"
+  kind \in {"c11", "c06"} => \A o \in DOMAIN res : (FaultOf(o).cut < 0 /\ FaultOf(o).corr = 0 /\ CleanBefore(o)) => res[o].result # "noProgress"
+\* an answer with a foreign correlation id is a framing error for a Conn used by one goroutine
+C11_WrongIdIsError ==
+  kind = "c11" => \A o \in DOMAIN res : (FaultOf(o).corr # 0 /\ CleanBefore(o)) => Failed(o)
 
 \* C17: a response cut before its end gives an error, never a result, a panic or a hang
 C17_CutIsError ==
